@@ -266,7 +266,7 @@ func TestVerifC05(t *testing.T) {
 				c.verify("genuine", k, h, a, m, sig)
 			}
 			al := sigAlgOf(k)
-			for i := 0; i < 5; i++ { // genuine, repeated with fresh messages: the success path
+			for i := 0; i < verifkit.N(60, 200); i++ { // genuine, repeated with fresh messages: the success path
 				m2 := c.r.Bytes(c.r.Intn(300))
 				c.verify("genuine", k, h, al, m2, k.Sign(h, m2))
 			}
